@@ -21,7 +21,17 @@ PARAMS = [[1e-2, 1e-1, 1.7], [3e-3, 2e-2, 2.5], simcfg.DEFAULT_PARAMS]
 FILTERS = [None] + [[t, o] for t in ("multiplicative", "convolution") for o in (1, 2, 3)]
 
 
-def case_step(cfg, state, velocity, forcing, steps, seed):
+def case_step(cfg, state, velocity, forcing, steps, seed, backend="interp"):
+    from harness import shim
+
+    shim.set_backend(backend)
+    try:
+        return _case_step(cfg, state, velocity, forcing, steps, seed, backend)
+    finally:
+        shim.set_backend("interp")
+
+
+def _case_step(cfg, state, velocity, forcing, steps, seed, backend):
     c = simcfg.normalise(cfg)
     kind = c["kind"]
     d = simcfg.dim_of(kind)
@@ -37,8 +47,25 @@ def case_step(cfg, state, velocity, forcing, steps, seed):
     dx = float(sim.dx)
     tag = f"{kind}"
     t_expected = float(sim.time)
+    second = None
+    if isinstance(steps, str):  # "2:single" / "2:zero": the second step starts from a re-loaded state
+        steps, second = int(steps.split(":")[0]), steps.split(":")[1]
     for step in range(steps):
         prim = simcfg.primary(sim)
+        if step == 1 and second is not None:
+            # state in which field components are IDENTICALLY zero, on a simulator whose scratch and
+            # stream-function arrays still hold the previous step's data
+            if second == "zero":
+                prim[...] = 0
+            elif prim.ndim == d:
+                prim[...] = 0
+                prim[tuple(n // 2 for n in c["shape"])] = 1.25
+            else:
+                keep = prim[0].copy()
+                prim[...] = 0
+                prim[0] = keep
+            if second == "zero" or prim.ndim != d:
+                sim.velocity_field[...] = 0 if second == "zero" else sim.velocity_field
         w0 = prim.astype(np.float64).copy()
         u0 = sim.velocity_field.astype(np.float64).copy()
         f0 = sim.eul_grid_forcing_field.astype(np.float64).copy() if (simcfg.is_ns(kind) and c["forcing"]) else None
@@ -82,7 +109,7 @@ def case_step(cfg, state, velocity, forcing, steps, seed):
             if not np.array_equal(sim.velocity_field.astype(np.float64), u0):
                 fails.append(Fail(f"{tag}:velocity-modified", "passive transport step modified the velocity field", **ctx))
     changed = bool(np.any(simcfg.primary(sim) != 0))
-    return CaseResult(fails=fails, states=steps, transitions=steps, traces=steps, outcome=f"{kind}:{c['dtype']}:{state}:{changed}", extra={"shape": c["shape"]})
+    return CaseResult(fails=fails, states=steps, transitions=steps, traces=steps, outcome=f"{kind}:{c['dtype']}:{state}:{changed}:{backend}:{second}", extra={"shape": c["shape"], "backend": backend})
 
 
 def case_control(dummy):
@@ -111,16 +138,16 @@ CASES = {"step": case_step, "control": case_control}
 
 def lattice_cases(tier, seed):
     out = []
-    dev = 2 if tier == "quick" else 3
+    dev = {"quick": 2, "dev1": 1}.get(tier, 3)
     pat = {"state": simcfg.STATE_PATTERNS, "velocity": simcfg.VELOCITY_PATTERNS}
     ns_common = {"dtype": ["float64", "float32"], "forcing": [True, False], "stream": [True, False], "width": [2, 0, 1, 3, 4], "params": PARAMS,
-                 "steps": [1, 2], **pat, "forcing_pat": simcfg.FORCING_PATTERNS}
+                 "steps": [1, 2, "2:single", "2:zero"], **pat, "forcing_pat": simcfg.FORCING_PATTERNS}
     kinds = {
         "ns2d": {**ns_common, "shape": SHAPES[2]},
         "ns3d": {**ns_common, "shape": SHAPES[3], "filter": FILTERS, "poisson": ["greens", "fastdiag"]},
-        "pt2d": {"dtype": ["float64", "float32"], "params": PARAMS, "steps": [1, 2], **pat, "shape": SHAPES[2]},
-        "pt3ds": {"dtype": ["float64", "float32"], "params": PARAMS, "steps": [1, 2], **pat, "shape": SHAPES[3]},
-        "pt3dv": {"dtype": ["float64", "float32"], "params": PARAMS, "steps": [1, 2], **pat, "shape": SHAPES[3]},
+        "pt2d": {"dtype": ["float64", "float32"], "params": PARAMS, "steps": [1, 2, "2:single", "2:zero"], **pat, "shape": SHAPES[2]},
+        "pt3ds": {"dtype": ["float64", "float32"], "params": PARAMS, "steps": [1, 2, "2:single", "2:zero"], **pat, "shape": SHAPES[3]},
+        "pt3dv": {"dtype": ["float64", "float32"], "params": PARAMS, "steps": [1, 2, "2:single", "2:zero"], **pat, "shape": SHAPES[3]},
     }
     for kind, axes in kinds.items():
         for pt in explore.lattice(axes, dev):
@@ -130,10 +157,19 @@ def lattice_cases(tier, seed):
                     cfg[k] = pt[k]
             out.append(dict(cfg=cfg, state=pt["state"], velocity=pt["velocity"], forcing=pt.get("forcing_pat", "none"), steps=pt["steps"], seed=seed))
     # forcing + stream + filter together (the interesting 3-way interaction) for every filter and solver
-    for filt in FILTERS[1:]:
+    for filt in (FILTERS[1:] if tier != "dev1" else []):
         for ps_ in ("greens", "fastdiag"):
             for dt_ in ("float64", "float32"):
                 out.append(dict(cfg={"kind": "ns3d", "dtype": dt_, "forcing": True, "stream": True, "filter": filt, "poisson": ps_, "shape": SHAPES[3][1], "width": 3}, state="generic", velocity="generic", forcing="generic", steps=2, seed=seed))
+    return out
+
+
+def lattice_cases_dev1(seed):
+    import copy
+
+    out = []
+    for c in lattice_cases("dev1", seed):
+        out.append(copy.deepcopy(c))
     return out
 
 
@@ -143,8 +179,13 @@ def run(r) -> None:
     cases = lattice_cases(r.tier, r.seed)
     cases.sort(key=lambda c: c["cfg"]["kind"] not in ("ns3d", "pt3dv"))
     r.run_cases("step-lattice", "step", cases, chunksize=2)
+    if r.tier == "thorough":
+        # end-to-end replay of the deviation <= 1 traces on the REAL generated code (pystencils -> g++)
+        jit_cases = [dict(c, backend="jit") for c in lattice_cases_dev1(r.seed)]
+        r.run_cases("step-lattice-jit", "step", jit_cases, chunksize=6)
+        r.extra["jit_traces"] = len(jit_cases)
     r.bounds = {"deviation": 2 if r.tier == "quick" else 3, "cases": len(cases), "shapes": SHAPES, "params": PARAMS, "filters": FILTERS,
-                "widths": [0, 1, 2, 3, 4], "state_patterns": simcfg.STATE_PATTERNS, "velocity_patterns": simcfg.VELOCITY_PATTERNS, "forcing_patterns": simcfg.FORCING_PATTERNS, "steps": [1, 2]}
+                "widths": [0, 1, 2, 3, 4], "state_patterns": simcfg.STATE_PATTERNS, "velocity_patterns": simcfg.VELOCITY_PATTERNS, "forcing_patterns": simcfg.FORCING_PATTERNS, "steps": [1, 2, "2 with the second step re-loaded with a single non-zero component", "2 with the second step from the all-zero field"]}
     r.extra["rule"] = "one state per executed time step of each (configuration, pattern, history length) tuple of the deviation-bounded lattice; every step compared cell by cell with the independent reference"
     r.assumptions = ["small-scope: field values from finite pattern alphabets on grids of ~12 cells a side", "kernels on the interpreter back end, bound to the generated code by conformance replay",
                      "tolerance 64 eps x running sum of absolute terms per cell (vorticity), 256 eps x (|G| |w| / dx + |U_inf|) (velocity)"]
